@@ -49,6 +49,14 @@ Theorem C01_no_give_up : forall l i, static_link l -> stub_send_timeout l i = No
 Proof. exact static_no_send_timeout. Qed.
 Print Assumptions C01_no_give_up.
 
+(** ... tied to the code by a regenerated fact: in toxics/*.go every hand-off with a time limit
+    (WriteOutput) sits in a select arm that received from stub.Interrupt, and plain hand-offs are
+    never select arms - [static_st] (no [SendT], no [Send _ KExit]) is what a stage can reach
+    without an interrupt *)
+Theorem C01_give_up_only_when_interrupted : give_up_only_when_interrupted = true /\ toxic_sends_are_plain = true.
+Proof. split; reflexivity. Qed.
+Print Assumptions C01_give_up_only_when_interrupted.
+
 (** the per-stage facts everything above rests on (any toxic proved to satisfy them inherits
     the link theorems) *)
 Theorem C01_stage_input : forall tx ps now draws (c : option chunk) acc tmr s' ds,
